@@ -8,7 +8,7 @@ use crate::engine::{idx, part, Ctx, PartDef, Rec};
 pub use crate::opgrammar::{check_grammar_string, no_panic, render, Comp, OpCase, Term};
 
 pub const TITLE: &str = "Symmetry-operation strings parse to the affine map they denote";
-pub const RULE: &str = "part grammar: an AST per component = a permutation of a non-empty subset of {+-x, +-y, +-c}, c = d or d/d' (single digits, d' != 0), rendered with optional leading '+', optional spaces after the comma and around binary +/-, optional enclosing parentheses; two components. Oracle: from_operations is Ok and maps 5 generated points to the AST's value (abs 1e-12). Spaces are never put inside d/d' or after a leading unary sign, so a stricter but correct parser is not blamed; blanks on either side of a binary + or - (x - 1/2) are part of the grammar (the statement's 'optional spaces'). Non-trivial = some component has >= 2 terms and starts with a constant or a negated variable. part arbitrary: any::<String>(), strings over the alphabet \"xyXYz0-9+-*/(),. \\t\" and single-character mutations of grammar strings; oracle: the call returns (Ok or Err) without panicking; non-trivial = the string is not in the grammar and has >= 3 characters. Distinct by hash of the string.";
+pub const RULE: &str = "part grammar: an AST per component = a permutation of a non-empty subset of {+-x, +-y, +-c}, c = d or d/d' (single digits, d' != 0), rendered with optional leading '+', optional spaces after the comma and around binary +/-, optional enclosing parentheses; two components. Oracle: from_operations is Ok and maps 5 generated points to the AST's value (abs 1e-12). Spaces are never put inside d/d' or after a leading unary sign, so a stricter but correct parser is not blamed; blanks on either side of a binary + or - (x - 1/2) are part of the grammar (the statement's 'optional spaces'). Non-trivial = some component has >= 2 terms and starts with a constant or a negated variable. part exhaustive-components: every component AST of that grammar in every rendering, in either position next to a fixed second component (complete enumeration, ~5e6 strings; the parser handles components independently). part arbitrary: any::<String>(), strings over the alphabet \"xyXYz0-9+-*/(),. \\t\" and single-character mutations of grammar strings; oracle: the call returns (Ok or Err) without panicking; non-trivial = the string is not in the grammar and has >= 3 characters. Distinct by hash of the string.";
 
 pub fn assumptions() -> Vec<&'static str> {
     vec!["nothing is asserted about which non-grammar strings are accepted", "the thorough tier adds a libFuzzer campaign over the same two oracles (fuzz/ directory), reported in the evidence"]
@@ -138,6 +138,122 @@ fn arbitrary_oracle(c: &StrCase, rec: &Rec, _: &Ctx) -> Result<(), String> {
     Ok(())
 }
 
+/// every component AST of the grammar (all subsets, orders, signs, constants d and d/d') in every rendering
+/// (leading '+', blanks around binary operators, parentheses, blanks after the comma), in the first and in the second
+/// position, the other component being a fixed simple one — the parser treats the two components independently.
+fn exhaustive_components(ctx: &Ctx, ev: &mut crate::evidence::Evidence) {
+    let mut consts: Vec<Term> = vec![];
+    for neg in [false, true].iter() {
+        for d in 0u8..=9 {
+            consts.push(Term::C(*neg, d, 0));
+            for q in 1u8..=9 {
+                consts.push(Term::C(*neg, d, q));
+            }
+        }
+    }
+    let xs = [Term::X(false), Term::X(true)];
+    let ys = [Term::Y(false), Term::Y(true)];
+    let mut asts: Vec<Vec<Term>> = vec![];
+    let perms3: [[usize; 3]; 6] = [[0, 1, 2], [0, 2, 1], [1, 0, 2], [1, 2, 0], [2, 0, 1], [2, 1, 0]];
+    for x in xs.iter() {
+        asts.push(vec![x.clone()]);
+    }
+    for y in ys.iter() {
+        asts.push(vec![y.clone()]);
+    }
+    for c in consts.iter() {
+        asts.push(vec![c.clone()]);
+    }
+    for x in xs.iter() {
+        for y in ys.iter() {
+            asts.push(vec![x.clone(), y.clone()]);
+            asts.push(vec![y.clone(), x.clone()]);
+        }
+    }
+    for v in xs.iter().chain(ys.iter()) {
+        for c in consts.iter() {
+            asts.push(vec![v.clone(), c.clone()]);
+            asts.push(vec![c.clone(), v.clone()]);
+        }
+    }
+    for x in xs.iter() {
+        for y in ys.iter() {
+            for c in consts.iter() {
+                let t = [x.clone(), y.clone(), c.clone()];
+                for p in perms3.iter() {
+                    asts.push(vec![t[p[0]].clone(), t[p[1]].clone(), t[p[2]].clone()]);
+                }
+            }
+        }
+    }
+    let other = Comp { terms: vec![Term::Y(false), Term::C(false, 1, 2)], lead_plus: false, sp: vec![(false, false); 3] };
+    let points = vec![(0.37, -2.25), (1., 0.), (0., 1.), (-1.5, 0.625)];
+    let n_asts = asts.len();
+    let total = std::sync::atomic::AtomicU64::new(0);
+    let failure: std::sync::Mutex<Option<(OpCase, String)>> = std::sync::Mutex::new(None);
+    let chunk = (n_asts + ctx.threads - 1) / ctx.threads.max(1);
+    std::thread::scope(|scope| {
+        for part in asts.chunks(chunk.max(1)) {
+            let total = &total;
+            let failure = &failure;
+            let other = &other;
+            let points = &points;
+            scope.spawn(move || {
+                let mut n = 0u64;
+                for terms in part.iter() {
+                    let gaps = terms.len().saturating_sub(1);
+                    for lead_plus in [false, true].iter() {
+                        for spmask in 0u32..(1 << (2 * gaps)) {
+                            let mut sp = vec![(false, false); 3];
+                            for g in 0..gaps {
+                                // sp[i] is used for the operator before term i (i >= 1)
+                                sp[g + 1] = (spmask >> (2 * g) & 1 == 1, spmask >> (2 * g + 1) & 1 == 1);
+                            }
+                            for parens in [false, true].iter() {
+                                for comma_spaces in 0u8..3 {
+                                    for first in [true, false].iter() {
+                                        let comp = Comp { terms: terms.clone(), lead_plus: *lead_plus, sp: sp.clone() };
+                                        let case = if *first {
+                                            OpCase { a: comp, b: other.clone(), parens: *parens, comma_spaces, lead_space: false, points: points.clone() }
+                                        } else {
+                                            OpCase { a: other.clone(), b: comp, parens: *parens, comma_spaces, lead_space: false, points: points.clone() }
+                                        };
+                                        n += 1;
+                                        if let Err(msg) = check_grammar_string(&case) {
+                                            let mut f = failure.lock().unwrap();
+                                            if f.is_none() {
+                                                *f = Some((case, msg));
+                                            }
+                                            total.fetch_add(n, std::sync::atomic::Ordering::SeqCst);
+                                            return;
+                                        }
+                                    }
+                                }
+                            }
+                        }
+                    }
+                }
+                total.fetch_add(n, std::sync::atomic::Ordering::SeqCst);
+            });
+        }
+    });
+    let done = total.load(std::sync::atomic::Ordering::SeqCst);
+    let mut m = crate::engine::Merged::default();
+    m.evals = done;
+    m.cases = done;
+    m.nontrivial_total = done;
+    for k in 0..(done.min(crate::engine::NT_CAP as u64)) {
+        m.nontrivial.insert(k);
+    }
+    *m.classes.entry("strings".to_string()).or_insert(0) += done;
+    m.samples.entry("exhaustive".to_string()).or_insert_with(Vec::new).push(serde_json::json!({"component_asts": n_asts, "strings_checked": done, "example": render(&OpCase { a: Comp { terms: asts[n_asts - 1].clone(), lead_plus: true, sp: vec![(true, true); 3] }, b: other.clone(), parens: true, comma_spaces: 1, lead_space: false, points: vec![] })}));
+    ev.absorb_part("exhaustive-components", &m);
+    ev.extra.insert("exhaustive_components".to_string(), serde_json::json!({"component_asts": n_asts, "strings_checked": done, "complete": failure.lock().unwrap().is_none()}));
+    if let Some((case, msg)) = failure.into_inner().unwrap() {
+        crate::engine::fail_case(ctx, ev, "grammar", serde_json::to_value(&case).unwrap(), format!("(exhaustive enumeration) {}", msg));
+    }
+}
+
 /// thorough tier only: coverage-guided campaign with the same two oracles (target in /verif/fuzz)
 fn libfuzzer_part(ctx: &Ctx, ev: &mut crate::evidence::Evidence) {
     use std::process::Command;
@@ -240,6 +356,7 @@ pub fn parts() -> Vec<PartDef> {
     vec![
         part("grammar", 3_000_000, 60_000_000, |_| grammar_case(), grammar_oracle),
         part("arbitrary", 3_000_000, 60_000_000, arbitrary_strat, arbitrary_oracle),
+        crate::engine::custom_part("exhaustive-components", exhaustive_components, |_, _, _| Err("findings of the enumeration are replayed through the grammar part".to_string())),
         crate::engine::custom_part("libfuzzer", libfuzzer_part, |_, _, _| Err("libFuzzer findings are replayed through the grammar/arbitrary parts".to_string())),
     ]
 }
